@@ -243,12 +243,12 @@ def run(chk):
 META = {
     "category": "other",
     "engine": "QN (svd-mode typestate) + axis tracking",
-    "technique": "typestate on the literal mode of every blocked decomposition call site + sibling agreement of direction bookkeeping (ast)",
+    "technique": "abstract interpretation: typestate runs of the canonical-form checks and ensure_* on chains with per-site orthogonality states, _update_ms / _update_mps / compress / svd_qn on abstract tensors and column-provenance matrices, system side evaluated for both flag values, tree decompositions on symbolic trees; typestate on the literal mode of the remaining decomposition call sites",
     "text": "Clause-only: decides 'no bond dimension has grown' (every decomposition on gauge paths is economic, so a bond is bounded by "
             "min(rows, cols) of its block) and the direction/centre bookkeeping that canonical form depends on (system side from sweep "
             "direction, absorb direction, ensure_* start configuration). Preservation of the represented object and isometry are numerical "
             "and are not decided."
             ' The per-bond limit looked up for a truncation (shared with C05) and the sweep site lists / direction switch (abstract run on a 5-site chain) are decided too.',
     "note": "Two sites (_update_mps, TTNS.update_2site) use full matrices on purpose; they are a frozen table with the source's own reason.",
-    "design_ref": "DESIGN.md 3.4, 4 (C04)",
+    "design_ref": "DESIGN.md 3.4, 4 (C04); as built: 9.1, 9.3, 9.8",
 }
